@@ -489,7 +489,15 @@ def _bad_alarms(rec, tol):
     return sorted(al, key=lambda t: 0 if ("on the real bus strobes" in t or "of the published window" in t or "published address" in t) else 1)
 
 
-def shrink_soc(inp, tol, budget_s=60):
+CONCRETE = ("on the real bus strobes", "of the published window", "published address")
+
+
+def _cls(text):
+    """The class of a 'most concrete' alarm (an access on the real bus that reached the wrong register / cell), or None."""
+    return next((c for c in CONCRETE if c in str(text)), None)
+
+
+def shrink_soc(inp, tol, budget_s=60, need=None):
     """Greedy reduction of a failing SoC configuration: drop RAMs, peripherals, memories, registers, options while
     the oracle (not the model) still raises an unattributed alarm."""
     import copy
@@ -498,7 +506,8 @@ def shrink_soc(inp, tol, budget_s=60):
 
     def fails(c):
         rec = L.soc_task((c, seed, None))
-        return rec["verdict"] == "ok" and bool(_bad_alarms(rec, tol))
+        bad = _bad_alarms(rec, tol)
+        return rec["verdict"] == "ok" and bool(bad) and (need is None or any(need in t for t in bad))
 
     def candidates(c):
         for k in range(len(c.get("rams", []))):
@@ -546,10 +555,12 @@ def search(ctx, disagreements, proof_info):
             # building / driving the implementation raised or hung: the configuration is the failing input
             return {"input": d.input, "oracle": "exception or timeout while building/driving the implementation: " + str(d.alarm)[-600:],
                     "how": "./check C14 --replay <this file>"}
-    for d in disagreements:
+    # the most concrete observation first: an access at a published address that reached another register / cell; the
+    # reduction keeps that kind of alarm alive (a register + published address + what answered instead)
+    for d in sorted(disagreements, key=lambda d_: 0 if (d_.kind == "oracle" and _cls(d_.alarm)) else 1):
         if d.kind == "oracle":
             if isinstance(d.input, dict) and d.input.get("kind") == "soc":
-                inp, alarms = shrink_soc(d.input, tol)
+                inp, alarms = shrink_soc(d.input, tol, need=_cls(d.alarm))
                 return {"input": inp, "oracle": alarms[0], "more": alarms[1:4], "how": "./check C14 --replay <this file>"}
             return {"input": d.input, "oracle": d.alarm, "how": "./check C14 --replay <this file>"}
     # correspondence or proof broke without an oracle alarm so far: look further with the oracle alone
@@ -566,7 +577,7 @@ def search(ctx, disagreements, proof_info):
         jobs = []
         for rec in recs:
             if rec["verdict"] == "ok" and _bad_alarms(rec, tol):
-                inp, alarms = shrink_soc({"cfg": rec["cfg"], "seed": rec["seed"]}, tol)
+                inp, alarms = shrink_soc({"cfg": rec["cfg"], "seed": rec["seed"]}, tol, need=_cls(_bad_alarms(rec, tol)[0]))
                 return {"input": inp, "oracle": alarms[0], "more": alarms[1:4]}
         tmp = tempfile.mkdtemp(prefix="c14_")
         try:
